@@ -47,7 +47,7 @@ Proof.
       destruct (ts =? 0)%N, (seq =? 0)%N, (pte =? 0)%N; reflexivity. }
   rewrite <- andb_assoc.
   destruct ((ts =? 0)%N && ((seq =? 0)%N && (pte =? 0)%N)); cbn [run]; [reflexivity|].
-  cbv [int_of geti s_ints s_rest text_eqb N.eqb Pos.eqb andb L Ascii.N_of_ascii Ascii.N_of_digits N.add N.mul Pos.add Pos.mul Pos.succ].
+  cbv [int_of geti s_ints s_mems s_idx s_rest forget names_var text_eqb N.eqb Pos.eqb andb L Ascii.N_of_ascii Ascii.N_of_digits N.add N.mul Pos.add Pos.mul Pos.succ].
   rewrite !N2Z.id. reflexivity.
 Qed.
 
